@@ -21,7 +21,7 @@ func init() {
 // named recipient - the same lines the real generator emits, which is what the
 // bounce target looks for in both modes.
 //
-//verif:stub github.com/foxcpp/maddy/internal/dsn.GenerateDSN @harness_C01_step,harness_C01_base
+//verif:stub github.com/foxcpp/maddy/internal/dsn.GenerateDSN @!harness_C18_report
 func stubGenerateDSN(utf8 bool, envelope dsn.Envelope, mtaInfo dsn.ReportingMTAInfo, rcptsInfo []dsn.RecipientInfo, failedHeader textproto.Header, outWriter io.Writer) (textproto.Header, error) {
 	for _, r := range rcptsInfo {
 		io.WriteString(outWriter, "Final-Recipient: rfc822; "+r.FinalRecipient+"\r\n")
@@ -79,6 +79,7 @@ func contains(l []string, s string) bool {
 func harness_C01_step() {
 	n := verifParam("rcpts", 2)
 	fsReset()
+	scriptNoVariants, scriptClasses, scriptMsgSym = false, 4, 0
 	dir := qDir()
 	rcpts := c01Rcpts[:n]
 	maxTries := nondetInt("maxTries", 1, 3)
